@@ -29,6 +29,7 @@ KINDS = {
     'zn': ('zero', V('n')),
     'fn': ('fill', V('m'), C(0x55)),
     'z0': ('zero', C(0)),
+    'm2': ('instr', 'nn2', None),
 }
 
 
@@ -48,11 +49,11 @@ def mk(sid, prog, consts, files=None, **cfg):
 
 def shapes(tier, seed):
     S = []
-    pairs = [('i3', 'd4'), ('d2', 'i1'), ('zn', 'd4'), ('d4', 'fn'), ('i3', 'z0'), ('zn', 'fn')]
+    pairs = [('i3', 'd4'), ('d2', 'i1'), ('zn', 'd4'), ('d4', 'fn'), ('i3', 'z0'), ('zn', 'fn'), ('m2', 'i1'), ('d2', 'm2')]
     for a, b in pairs:
         syms = ['a0', 'a1'] + (['n'] if 'zn' in (a, b) else []) + (['m'] if 'fn' in (a, b) else [])
         S.append(mk(f'pair:{a}-{b}', [('org', V('a0'), None), KINDS[a], ('org', V('a1'), None), KINDS[b]], syms))
-    triples = [('i3', 'd2', 'd4'), ('d4', 'zn', 'i1'), ('z0', 'd4', 'i3')]
+    triples = [('i3', 'd2', 'd4'), ('d4', 'zn', 'i1'), ('z0', 'd4', 'i3'), ('m2', 'd2', 'i1')]
     if tier != 'quick':
         triples += [('fn', 'i3', 'zn'), ('d2', 'd2', 'd2'), ('i1', 'z0', 'i1')]
     for t in triples:
@@ -66,6 +67,8 @@ def shapes(tier, seed):
     # first line placed by the default origin, second by .org; second region follows the first without .org
     S.append(mk('origin-vs-org', [KINDS['d4'], ('org', V('a1'), None), KINDS['i3'], KINDS['i1']], ['a1'],
                 origin=Sym('o0', 0, 40)))
+    # a macro line directly followed (no .org) by another line: the follower must not share the macro's last byte
+    S.append(mk('macro-then-sequential', [('org', V('a0'), None), KINDS['m2'], KINDS['i1'], ('org', V('a1'), None), KINDS['d2']], ['a0', 'a1']))
     # predefined data block against a line
     S.append(mk('predef-vs-line', [('org', V('a0'), None), KINDS['d4']], ['a0'],
                 data_blocks=[('blk', Sym('ba', 0, 40), 3, 7)]))
